@@ -38,6 +38,10 @@ VecInDomain(e) ==
     /\ Len(e.cols) \in 1..3
     /\ \A j \in 1..Len(e.cols) : ValidVec(e.cols[j]) /\ Len(e.cols[j]) = Len(e.cols[1])
     /\ e.layout \in LayoutSet /\ e.err \in ErrSet
+    /\ e.form \in FormSet /\ e.entry \in EntrySet /\ e.spell \in SpellSet /\ e.vals \in ValsSet /\ e.prev \in PrevSet
+    \* aliasing: the threshold array and the tensor are the same object, i.e. t_i = v_i (>= 0)
+    /\ e.alias \in BOOLEAN
+    /\ (e.alias => e.op = "l1arr" /\ \A j \in 1..Len(e.cols) : \A i \in 1..Len(e.cols[j]) : e.t[j][i] = e.q * e.cols[j][i])
     \* whole-tensor operators on a matrix: the single logged column is the row-major flattening of a 2 x 2 input
     /\ e.mshape \in ShapeSet
     /\ (e.mshape # <<>> => e.op \in WholeTensorOps /\ Len(e.cols) = 1 /\ Len(e.cols[1]) = e.mshape[1] * e.mshape[2])
@@ -99,6 +103,12 @@ IdemOK(e, r, j) ==
             z == e.runs[r].again[j] IN
         \A i \in 1..Len(y) : AbsI(z[i] - y[i]) <= IdemTol
 
+\* StrictErrorStateSpoke: the caller asked NumPy to raise on floating-point events (np.errstate(all="raise")) or turned
+\* warnings into errors and the call ended in exactly that exception (e.g. an underflow while squaring a subnormal entry).
+\* The property does not quantify over the caller's error state: such a run is accepted as it is; any other exception, and
+\* any exception under the "default" / "ignore" settings, is a rejection.
+StrictSpoke(err, run) == run.raised /\ ((err = "raise" /\ run.exc = "FloatingPointError") \/ (err = "warnerr" /\ run.exc = "RuntimeWarning"))
+
 VecVerdict(e) ==
     IF ~VecInDomain(e) THEN "InDomain"
     ELSE LET \* when both runs logged identical records only "direct" is evaluated (its clauses imply "dispatch"'s)
@@ -107,7 +117,8 @@ VecVerdict(e) ==
              nc == Len(e.cols)
              n == Len(e.cols[1])
              J == 1..nc IN
-         IF \E r \in R : e.runs[r].raised THEN "Raised"
+         IF \E r \in R : e.runs[r].raised /\ ~StrictSpoke(e.err, e.runs[r]) THEN "Raised"
+         ELSE IF \E r \in R : e.runs[r].raised THEN "ok"
          \* the caller's array must be bit-identical after the call
          ELSE IF \E r \in R : e.runs[r].mutated THEN "InputUntouched"
          ELSE IF \E r \in R : e.runs[r].size # nc * n THEN "Shape"
@@ -124,10 +135,10 @@ VecVerdict(e) ==
 IsIntMat(A, m, n) == DOMAIN A = 1..m /\ \A i \in 1..m : DOMAIN A[i] = 1..n /\ IsIntSeq(A[i])
 MatInDomain(e) ==
     /\ e.op \in MatOps
-    /\ e.m \in {2, 3} /\ e.n \in {2, 3}
+    /\ e.m \in {1, 2, 3} /\ e.n \in {1, 2, 3}
     /\ ValidMat(e)
     /\ e.M = MatOf(e)
-    /\ e.layout \in LayoutSet /\ e.err \in ErrSet
+    /\ e.layout \in LayoutSet /\ e.err \in ErrSet /\ e.form \in FormSet /\ e.vals \in ValsSet
     /\ DOMAIN e.runs = {"direct"}
 
 MatClose(Y, num, den) ==
@@ -136,7 +147,7 @@ MatClose(Y, num, den) ==
 MatVerdict(e) ==
     IF ~MatInDomain(e) THEN "InDomain"
     ELSE LET run == e.runs["direct"] IN
-         IF run.raised THEN "Raised"
+         IF run.raised THEN (IF StrictSpoke(e.err, run) THEN "ok" ELSE "Raised")
          ELSE IF run.mutated THEN "InputUntouched"
          ELSE IF run.size # e.m * e.n THEN "Shape"
          ELSE IF ~IsIntMat(run.out, e.m, e.n) THEN "Finite"
